@@ -43,3 +43,18 @@ PROPS['C01'] = dict(
 )
 
 NOT_APPLICABLE = {}
+
+PROPS['C06'] = dict(
+    theorems=['pool_invariant', 'get_unique_or_exhausted', 'get_removes_exactly_v', 'put_frees_exactly_x'],
+    families=[dict(name='idpool', corr='IdPool', runs=[('bfs', 1, 1), ('random', 120, 2000)])],
+    level_text='Theorems: in every state reachable by any Get/Put history the free-interval list is sorted, disjoint, in range and denotes exactly the range minus the outstanding identifiers; Get returns a free in-range identifier or reports exhaustion iff none is free; Put frees exactly the given in-range identifier and is a no-op otherwise. The model is compared with the Go pool on every transition of every reachable state of small ranges and on seeded histories of the production range, including the interval list after every call and panics.',
+    level_note='Trusted: Coq kernel + vm_compute; harness (verif hook exposing the unexported pool), emitter, evaluator. The model follows Put\'s case analysis as a structural recursion, not statement by statement: absence of panics in the Go code is observed by the harness (recover), not proved. The exhaustion marker -1 requires min >= 0 (wasp uses 0).',
+    rule='bfs: breadth-first enumeration of all reachable free-list states for ranges [0,3],[1,4],[0,4] (thorough: also [1,6],[0,6]); every Get and every Put x, x in [min-1,max+1], from every state is one case (the path to the state plus the transition); random: 150-400 calls on 0..65535 and on small ranges with 10% free/unknown and 10% out-of-range releases. Non-trivial: at least one Get and one Put.',
+    assumptions=['int32 arithmetic does not overflow for ranges within 0..65535'],
+)
+
+PROPS['C04'] = dict(
+    theorems=[],
+    families=[dict(name='ackqueue', corr='AckQueue', runs=[('exhaustive', 1, 1), ('random', 800, 12000)])],
+    rule='exhaustive: every sequence of <=3 (quick) / <=4 (thorough) operations drawn from 13 register/acknowledge/sweep operations over a 2x2 key space with two deadlines in the same second and one in the next, closed by a final sweep; random: 1-40 operations over 3 sessions x 4 identifiers, deadlines on a 250 ms grid around a slowly advancing clock (equal, same-second, past and future deadlines, +-1 ns offsets), 15% wrong packet types, unknown identifiers, identifier 0, QoS 0, non-acknowledgement packets. Non-trivial: >=2 registrations and >=1 callback.',
+)
